@@ -60,7 +60,7 @@ pub fn with_quiet_panics<R>(f: impl FnOnce() -> R) -> (R, Vec<String>) {
 pub struct RunCfg {
     pub enabled: [bool; 5],
     pub max_points: usize,
-    /// real-time watchdog per execution
+    /// watchdog per execution: CPU time of the executing thread (see `wait_exec`)
     pub real_timeout: Duration,
     /// task polls at one virtual instant after which the execution counts as spinning
     pub spin_limit: u64,
@@ -101,12 +101,80 @@ pub struct Exec<O> {
     /// tasks still alive when the scenario future returned
     pub alive_tasks: usize,
     pub watchdog: bool,
+    /// CPU time the executing thread spent on this execution (ms); the measure of "work" - unlike wall-clock
+    /// time it does not depend on what else the machine is doing
+    pub cpu_ms: f64,
     /// the scheduler was frozen because more than `spin_limit` task polls happened without the
     /// system ever blocking (virtual time could not advance): some task busy-spins
     pub spun: bool,
 }
 
 fn exec_on_this_thread<O: 'static>(prefix: Vec<Point>, cfg: &RunCfg, scen: &Scenario<O>) -> Exec<O> {
+    let cpu0 = thread_cpu_ms();
+    let mut e = exec_on_this_thread_inner(prefix, cfg, scen);
+    e.cpu_ms = thread_cpu_ms() - cpu0;
+    e
+}
+
+/// CPU time consumed so far by the calling thread, in milliseconds.
+pub fn thread_cpu_ms() -> f64 {
+    let mut ts = libc::timespec { tv_sec: 0, tv_nsec: 0 };
+    unsafe { libc::clock_gettime(libc::CLOCK_THREAD_CPUTIME_ID, &mut ts) };
+    ts.tv_sec as f64 * 1000.0 + ts.tv_nsec as f64 / 1e6
+}
+
+/// The CPU-time clock of the calling thread, readable from other threads.
+fn my_cpu_clock() -> libc::clockid_t {
+    let mut cid: libc::clockid_t = 0;
+    unsafe { libc::pthread_getcpuclockid(libc::pthread_self(), &mut cid) };
+    cid
+}
+
+fn read_clock_ms(cid: libc::clockid_t) -> Option<f64> {
+    let mut ts = libc::timespec { tv_sec: 0, tv_nsec: 0 };
+    let rc = unsafe { libc::clock_gettime(cid, &mut ts) };
+    if rc == 0 {
+        Some(ts.tv_sec as f64 * 1000.0 + ts.tv_nsec as f64 / 1e6)
+    } else {
+        None
+    }
+}
+
+/// Wait for the execution running on another thread.  The watchdog `budget` is CPU time of THAT thread: an
+/// execution on a busy machine may take long in wall-clock terms without having computed much, and that must
+/// not be held against the subject.  A wall-clock cap of 20 x budget + 2 min remains as a back-stop for an
+/// execution that blocks without computing.
+fn wait_exec<O>(rx: &std::sync::mpsc::Receiver<Exec<O>>, cid_rx: &std::sync::mpsc::Receiver<libc::clockid_t>, budget: Duration) -> Result<Exec<O>, bool> {
+    use std::sync::mpsc::RecvTimeoutError;
+    let wall0 = std::time::Instant::now();
+    let wall_cap = budget * 20 + Duration::from_secs(120);
+    let step = Duration::from_millis(200).min(budget);
+    let mut clock: Option<(libc::clockid_t, f64)> = None;
+    loop {
+        match rx.recv_timeout(step) {
+            Ok(e) => return Ok(e),
+            Err(RecvTimeoutError::Disconnected) => return Err(false),
+            Err(RecvTimeoutError::Timeout) => {
+                if clock.is_none() {
+                    if let Ok(cid) = cid_rx.try_recv() {
+                        clock = read_clock_ms(cid).map(|t| (cid, t));
+                    }
+                }
+                if let Some((cid, t0)) = clock {
+                    match read_clock_ms(cid) {
+                        Some(t) if t - t0 > budget.as_secs_f64() * 1000.0 => return Err(true),
+                        _ => {}
+                    }
+                }
+                if wall0.elapsed() > wall_cap {
+                    return Err(true);
+                }
+            }
+        }
+    }
+}
+
+fn exec_on_this_thread_inner<O: 'static>(prefix: Vec<Point>, cfg: &RunCfg, scen: &Scenario<O>) -> Exec<O> {
     tape::install(prefix, cfg.enabled, cfg.max_points);
     tokio::verif_hook::set_hook(Box::new(|k, n| match k {
         tokio::verif_hook::Kind::Task => tape::choose(Kind::Task, n),
@@ -163,6 +231,7 @@ fn exec_on_this_thread<O: 'static>(prefix: Vec<Point>, cfg: &RunCfg, scen: &Scen
             diverged: taken.diverged,
             alive_tasks: alive,
             watchdog: false,
+            cpu_ms: 0.0,
             spun,
         },
         Err(e) => Exec {
@@ -185,6 +254,7 @@ fn exec_on_this_thread<O: 'static>(prefix: Vec<Point>, cfg: &RunCfg, scen: &Scen
             diverged: taken.diverged,
             alive_tasks: 0,
             watchdog: false,
+            cpu_ms: 0.0,
             spun,
         },
     }
@@ -235,11 +305,13 @@ pub fn run_exec<O: Send + 'static>(prefix: Vec<Point>, cfg: &RunCfg, scen: &Scen
         let cfg2 = cfg.clone();
         let scen2 = scen.clone();
         let (tx, rx) = std::sync::mpsc::channel();
+        let (cid_tx, cid_rx) = std::sync::mpsc::channel();
         helper_submit(Box::new(move || {
+            let _ = cid_tx.send(my_cpu_clock());
             let e = exec_on_this_thread(vec![], &cfg2, &scen2);
             let _ = tx.send(e);
         }));
-        return match rx.recv_timeout(cfg.real_timeout) {
+        return match wait_exec(&rx, &cid_rx, cfg.real_timeout) {
             Ok(e) => e,
             Err(_) => {
                 helper_abandon();
@@ -250,6 +322,7 @@ pub fn run_exec<O: Send + 'static>(prefix: Vec<Point>, cfg: &RunCfg, scen: &Scen
                     diverged: None,
                     alive_tasks: 0,
                     watchdog: true,
+                    cpu_ms: 0.0,
                     spun: false,
                 }
             }
@@ -263,26 +336,28 @@ pub fn run_exec_fresh<O: Send + 'static>(prefix: Vec<Point>, cfg: &RunCfg, scen:
     let cfg2 = cfg.clone();
     let scen2 = scen.clone();
     let (tx, rx) = std::sync::mpsc::channel();
+    let (cid_tx, cid_rx) = std::sync::mpsc::channel();
     let h = std::thread::Builder::new()
         .stack_size(8 << 20)
         .spawn(move || {
+            let _ = cid_tx.send(my_cpu_clock());
             let e = exec_on_this_thread(prefix, &cfg2, &scen2);
             let _ = tx.send(e);
         })
         .expect("spawn exec thread");
-    match rx.recv_timeout(cfg.real_timeout) {
+    match wait_exec(&rx, &cid_rx, cfg.real_timeout) {
         Ok(e) => {
             let _ = h.join();
             e
         }
-        Err(std::sync::mpsc::RecvTimeoutError::Disconnected) => {
+        Err(false) => {
             let r = h.join();
             panic!("MACHINERY: execution thread died outside the subject: {:?}", r.err().map(|e| {
                 e.downcast_ref::<String>().cloned().or_else(|| e.downcast_ref::<&str>().map(|s| s.to_string()))
             }));
         }
-        Err(std::sync::mpsc::RecvTimeoutError::Timeout) => {
-            // the execution spins in real time: leak the thread, report the watchdog
+        Err(true) => {
+            // the execution keeps computing (or blocks for ever): leak the thread, report the watchdog
             Exec {
                 points: vec![],
                 out: None,
@@ -290,6 +365,7 @@ pub fn run_exec_fresh<O: Send + 'static>(prefix: Vec<Point>, cfg: &RunCfg, scen:
                 diverged: None,
                 alive_tasks: 0,
                 watchdog: true,
+                cpu_ms: 0.0,
                 spun: false,
             }
         }
